@@ -102,8 +102,16 @@ def rust_type(S, t, optional=False):
     return "Option<%s>" % name if optional else name
 
 
-def spec_rows(S):
+def spec_rows(S, with_serde_arms=False):
     a, notes = {}, []
+    if with_serde_arms:
+        for n, e in S.enums.items():
+            if e["type"]["name"] == "string":
+                continue
+            for v in e["values"]:
+                for fact in ("serialize_arms", "deserialize_arms"):
+                    key = ("enum", n, json.dumps(v["value"]), fact)
+                    a[key] = a.get(key, 0) + 1
     for n, s in S.structs.items():
         a[("struct", n, "", "exists")] = True
         a[("struct", n, "", "gated")] = bool(s.get("proposed"))
@@ -154,8 +162,31 @@ def spec_rows(S):
     return a, notes
 
 
-def impl_rows(S, items):
+def serde_arms(text):
+    """match arms of the hand-written Serialize / Deserialize impls of integer enums"""
+    import re
+
+    ser, de = {}, {}
+    for m in re.finditer(r"([A-Za-z_][A-Za-z0-9_]*)\s*::\s*([A-Za-z_][A-Za-z0-9_]*)\s*=>\s*serializer\s*\.\s*serialize_i32\s*\(\s*(-?\d+)\s*\)", text):
+        ser.setdefault(m.group(1), []).append(int(m.group(3)))
+    for m in re.finditer(r"(-?\d+)\s*=>\s*Ok\s*\(\s*([A-Za-z_][A-Za-z0-9_]*)\s*::\s*([A-Za-z_][A-Za-z0-9_]*)\s*\)", text):
+        de.setdefault(m.group(2), []).append(int(m.group(1)))
+    return ser, de
+
+
+def impl_rows(S, items, text=None):
     b = {}
+    if text is not None:
+        ser, de = serde_arms(text)
+        for n, e in S.enums.items():
+            if e["type"]["name"] == "string":
+                continue
+            for v in ser.get(n, []):
+                key = ("enum", n, json.dumps(v), "serialize_arms")
+                b[key] = b.get(key, 0) + 1
+            for v in de.get(n, []):
+                key = ("enum", n, json.dumps(v), "deserialize_arms")
+                b[key] = b.get(key, 0) + 1
     by = {}
     for it in items:
         by.setdefault(it.name, []).append(it)
